@@ -115,7 +115,7 @@ def run_item(item):
     I = interp()
     N = item["N"]
     vs, s = sym_sequence(I, N)
-    rng = random.Random(N * 31 + len(item["name"]))
+    rng = seeded_rng(N * 31 + len(item["name"]))
     kind = item["kind"]
     if kind == "delta":
         return run_delta(item, res, I, vs, s, rng)
